@@ -490,7 +490,7 @@ func c05Names(r *core.Run, goose string) {
 		r.Distinct("name/" + n)
 		r.Count("identifier_names_tried", 1)
 		if p.Crashed {
-			r.Inconclusive("goose-crash")
+			r.Violate("c05-name-"+n+"-goose-crash", "goose aborts on a package whose top-level function is named "+n+": "+firstLines(p.Stderr, 6), map[string]interface{}{"stderr": p.Stderr})
 			continue
 		}
 		if len(p.GooseErrs) > 0 {
@@ -537,7 +537,9 @@ func c05JudgeHostile(r *core.Run, p *tvPkg, pkg *gen.Package, placement string, 
 			detail["v"] = "(omitted)"
 		}
 		if p.Crashed {
-			r.Inconclusive("goose-crash")
+			// no file at all for this content: the printer (or the translator) aborted on it
+			detail["stderr"] = p.Stderr
+			r.Violate(sig+"-goose-crash", fmt.Sprintf("payload %q at %s: goose aborts instead of emitting a file: %s", short(payload.Text), placement, firstLines(p.Stderr, 6)), detail)
 			continue
 		}
 		rejectedTarget := len(p.GooseErrs) > 0
